@@ -11,6 +11,10 @@ Model driver for C18. Line protocol (fields separated by one space; byte strings
   legacy <idhex> <expecthex> <pdhfieldhex> <mthex>   -- rewriteSignatures on a 200 record
                                              → ok <mthex> | err invalid-stream|pdh-field|hash
   legacyraw reqerr|status:<code>|badjson     → reqerr | pass <code> | err json
+  lfetch <reqhex> <local> <remotes> <order>  -- fetchRemoteCollectionByPDH with scripted transports
+        reply = R:<uuidhex>:<fieldhex>:<mthex> (200 record) | S:<code> | X (transport error) | H
+                                             → unhandled | ok <mthex> cc=<0|1> leak=0
+                                             | local <mthex> … | localstatus <code> … | err <code> …
 -/
 import ArvVerif.Base.MD5
 import ArvVerif.Base.Loop
@@ -51,6 +55,35 @@ def parseOrder (rs : List (Str × Answer)) (s : String) : Option (List (Str × A
 
 def flag (b : Bool) : String := if b then "1" else "0"
 
+def parseLReply (s : String) : Option (Option LegacyReply) :=   -- none inside = hang
+  if s == "H" then some none
+  else if s == "X" then some (some .reqErr)
+  else match s.splitOn ":" with
+  | ["S", c] => c.toNat?.map (fun n => some (.status n))
+  | ["R", _, f, m] =>
+    match unhex f, unhex m with
+    | some f, some m => some (some (.record m f))
+    | _, _ => none
+  | _ => none
+
+def parseLRemotes (s : String) : Option (List (Str × Option LegacyReply)) :=
+  if s == "-" then some [] else
+  (s.splitOn ";").mapM (fun e =>
+    match e.splitOn "=" with
+    | [id, a] => (parseLReply a).map (fun a => (id.toList, a))
+    | _ => none)
+
+def lookupL (id : Str) : List (Str × Option LegacyReply) → Option (Option LegacyReply)
+  | [] => none
+  | (k, a) :: rest => if k = id then some a else lookupL id rest
+
+def parseLOrder (rs : List (Str × Option LegacyReply)) (s : String) : Option (List (Str × LegacyReply)) :=
+  if s == "-" then some [] else
+  (s.splitOn ",").mapM (fun id =>
+    match lookupL id.toList rs with
+    | some (some r) => some (id.toList, r)
+    | _ => none)
+
 def step (line : String) : String :=
   match fields line with
   | ["rw", id, mt] =>
@@ -82,6 +115,21 @@ def step (line : String) : String :=
       | .error .pdhField => "err pdh-field"
       | .error .hash => "err hash"
     | _, _, _, _ => "bad-op"
+  | ["lfetch", req, loc, rems, ord] =>
+    match unhex req, parseLReply loc, parseLRemotes rems with
+    | some req, some loc, some rems =>
+      match parseLOrder rems ord with
+      | some order =>
+        let l : LegacyLocal := match loc with | some r => .reply r | none => .hang
+        let tail := " cc=" ++ flag (legacyNeedsClientCancel md5Str req l rems.length order) ++ " leak=0"
+        match legacyFetchByPDH md5Str req l order with
+        | .unhandled => "unhandled"
+        | .localRecord mt _ => "local " ++ enhex mt ++ tail
+        | .localStatus c => "localstatus " ++ toString c ++ tail
+        | .ok m => "ok " ++ enhex m ++ tail
+        | .error c => "err " ++ toString c ++ tail
+      | none => "bad-op"
+    | _, _, _ => "bad-op"
   | ["legacyraw", k] =>
     if k == "reqerr" then "reqerr"
     else if k == "badjson" then "err json"
